@@ -1101,3 +1101,11 @@ def _(eng, ci, a, dt):
 def _(eng, ci, a, dt):
     """explicit drop glue call (e.g. of a moved-out Box): no user Drop impl exists in the crate (checked by the driver)"""
     return UNIT
+
+
+@model('Not::not')
+def _(eng, ci, a, dt):
+    v = deref(a[0])
+    if isinstance(v, bool) or (is_sym(v) and z3.is_bool(v)):
+        return bool_not(v)
+    raise Unsupported('Not::not on %r' % (v,))
